@@ -195,14 +195,35 @@ class Helper:
         self.assigns = []                   # leading simple assignments (choice)
         self.ret = None                     # block: returned expr or None
         self.nested = False
+        self.vararg = self.kwarg = None
         self.classify()
         self.finish_classify()
 
     def classify(self):
         fn = self.fn
         a = fn.args
-        if a.vararg or a.kwarg or a.kwonlyargs or a.posonlyargs:
+        if a.kwonlyargs or a.posonlyargs:
             return
+        # *args / **kwargs only where they are passed straight on
+        self.vararg = a.vararg.arg if a.vararg else None
+        self.kwarg = a.kwarg.arg if a.kwarg else None
+        for nm in (self.vararg, self.kwarg):
+            if nm is None:
+                continue
+            ok_uses = set()
+            for c in ast.walk(fn):
+                if isinstance(c, ast.Call):
+                    for x in c.args:
+                        if isinstance(x, ast.Starred) and isinstance(x.value, ast.Name) \
+                                and x.value.id == nm == self.vararg:
+                            ok_uses.add(id(x.value))
+                    for k in c.keywords:
+                        if k.arg is None and isinstance(k.value, ast.Name) and \
+                                k.value.id == nm == self.kwarg:
+                            ok_uses.add(id(k.value))
+            for x in ast.walk(fn):
+                if isinstance(x, ast.Name) and x.id == nm and id(x) not in ok_uses:
+                    return
         if not self.body or len(list(ast.walk(fn))) > 600:
             return
         n_stmts = sum(isinstance(x, ast.stmt) for x in ast.walk(fn)) - 1
@@ -267,8 +288,28 @@ class Helper:
 
 
 class _Rename(ast.NodeTransformer):
-    def __init__(self, mapping, subst):
+    def __init__(self, mapping, subst, splice=None):
         self.mapping, self.subst = mapping, subst
+        self.splice = splice        # (vararg, extra positional, kwarg, extra keywords)
+
+    def visit_Call(self, n):
+        if self.splice:
+            va, pos, kw, kws = self.splice
+            args = []
+            for x in n.args:
+                if va and isinstance(x, ast.Starred) and isinstance(x.value, ast.Name) \
+                        and x.value.id == va:
+                    args += [clone(e) for e in pos]
+                else:
+                    args.append(x)
+            keys = []
+            for k in n.keywords:
+                if kw and k.arg is None and isinstance(k.value, ast.Name) and k.value.id == kw:
+                    keys += [clone(e) for e in kws]
+                else:
+                    keys.append(k)
+            n.args, n.keywords = args, keys
+        return self.generic_visit(n)
 
     def visit_Name(self, n):
         if n.id in self.subst and isinstance(n.ctx, ast.Load):
@@ -284,7 +325,8 @@ class _Rename(ast.NodeTransformer):
     def visit_Lambda(self, n):
         shadow = {a.arg for a in n.args.args + n.args.kwonlyargs}
         inner = _Rename({k: v for k, v in self.mapping.items() if k not in shadow},
-                        {k: v for k, v in self.subst.items() if k not in shadow})
+                        {k: v for k, v in self.subst.items() if k not in shadow},
+                        self.splice)
         n.body = inner.visit(n.body)
         return n
 
@@ -385,26 +427,39 @@ class Inliner:
 
     def bind(self, h, call, recv):
         """{param: arg expr} or None."""
-        if any(isinstance(a, ast.Starred) for a in call.args) or \
-                any(k.arg is None for k in call.keywords):
-            return None
+        self.extra = ([], [])
         params = list(h.params)
         bind = {}
         if isinstance(recv, tuple):
             recv = None
+        npos = len(params) - (1 if h.kind in ("method", "class") else 0)
+        if any(isinstance(a, ast.Starred) for a in call.args[:npos]):
+            return None
+        if not (h.vararg or h.kwarg):
+            if any(isinstance(a, ast.Starred) for a in call.args) or \
+                    any(k.arg is None for k in call.keywords):
+                return None
         if h.kind in ("method", "class"):
             if recv is None or not params:
                 return None
             bind[params[0]] = recv
             params = params[1:]
-        if len(call.args) > len(params):
+        extra_pos = list(call.args[len(params):])
+        if extra_pos and not h.vararg:
             return None
         for p, a in zip(params, call.args):
             bind[p] = a
+        extra_kw = []
         for k in call.keywords:
-            if k.arg not in params or k.arg in bind:
+            if k.arg is None or k.arg not in params:
+                if not h.kwarg:
+                    return None
+                extra_kw.append(k)
+                continue
+            if k.arg in bind:
                 return None
             bind[k.arg] = k.value
+        self.extra = (extra_pos, extra_kw)
         for p in params:
             if p not in bind:
                 d = h.defaults.get(p)
@@ -479,7 +534,7 @@ class Inliner:
                 nm = self.fresh(L, taken)
                 taken.add(nm)
                 mapping[L] = nm
-        rn = _Rename(mapping, subst)
+        rn = _Rename(mapping, subst, (h.vararg, self.extra[0], h.kwarg, self.extra[1]))
         out = list(pre)
         for b in body:
             if b is h.body[-1] and isinstance(b, ast.Return):
@@ -619,7 +674,7 @@ class Inliner:
             nm = self.fresh(L, taken)
             taken.add(nm)
             mapping[L] = nm
-        rn = _Rename(mapping, subst)
+        rn = _Rename(mapping, subst, (h.vararg, self.extra[0], h.kwarg, self.extra[1]))
 
         def finish(blk):
             blk = list(blk)
@@ -680,7 +735,7 @@ class Inliner:
         if any(isinstance(n, (ast.Lambda, ast.ListComp, ast.GeneratorExp, ast.SetComp,
                               ast.DictComp, ast.NamedExpr)) for n in ast.walk(e)):
             return None
-        new = _Rename({}, bind).visit(clone(e))
+        new = _Rename({}, bind, (h.vararg, self.extra[0], h.kwarg, self.extra[1])).visit(clone(e))
         for n in ast.walk(new):
             if not hasattr(n, "lineno"):
                 ast.copy_location(n, call)
